@@ -17,6 +17,8 @@
 //!       (path as in fam_de.rs: reader:<buflen>:<sched>[@kF|@kP] | freader:<sched>).  Output:
 //!       `<Debug of the value | ERR:class> calls=<n> delivered=<n> A<mask>`
 //!   c20.bde   = de.bin (model side: extracted BinDeReader.deser_reader over a schedule WITH Fail events)
+//!   c20.tde   = de.text (model side: extracted TextDeReader.deser_text_reader over a schedule WITH Fail events)
+//!   c20.tde.calls = de.calls.text when the run succeeds (`calls=<n> delivered=<n> ok`), else `err`
 //!   c20.errconv : the From conversions into jomini::Error that need no reader (io::Error, ScalarError)
 use crate::fams::fam_de::{err_class, parse_enc, parse_flavor, parse_resolver, run_bin, run_text};
 use crate::util::*;
@@ -475,6 +477,14 @@ pub fn dispatch(kind: &str, a: &[&str]) -> Option<String> {
             }
         }
         ("c20.bde", _) => return crate::fams::fam_de::dispatch("de.bin", a),
+        // >>> w_tdef (wave 5): model side = extracted TextDeReader.deser_text_reader(_st) over a schedule WITH Fail events
+        ("c20.tde", _) => return crate::fams::fam_de::dispatch("de.text", a),
+        ("c20.tde.calls", _) => {
+            // read calls issued / bytes delivered by the scripted Read when the deserializer succeeds
+            let o = crate::fams::fam_de::dispatch("de.calls.text", a)?;
+            if o.ends_with(" ok") { o } else { "err".to_string() }
+        }
+        // <<< w_tdef
         ("c20.errconv", []) => {
             // From<io::Error> and From<ScalarError> for jomini::Error: class, source, Display
             let e = jomini::Error::from(injected_fault(1));
